@@ -12,7 +12,7 @@ from harness import tlc
 from harness.report import Report
 from harness.terms import canon, jkey, wire_match
 
-MUTABLE = (list, dict, set, collections.deque, bytearray)
+MUTABLE = (list, dict, set, collections.deque, bytearray)      # dict covers OrderedDict / defaultdict / Counter
 
 
 def in_paths(x, pre, acc):
@@ -28,6 +28,10 @@ def in_paths(x, pre, acc):
     elif isinstance(x, dict):
         for i, e in enumerate(x.values(), 1):
             in_paths(e, pre + (i,), acc)
+    elif isinstance(x, collections.ChainMap):
+        acc[pre + ("maps",)] = id(x.maps)             # the ChainMap's own list of maps is a mutable container of the argument too
+        for i, m in enumerate(x.maps, 1):
+            in_paths(m, pre + ("maps", i), acc)
     return acc
 
 
@@ -67,9 +71,9 @@ def _run(rec):
         real = {p for p, i in paths.items() if i in ids_out and p not in excepted}
         exp = {tuple(p) for p in shared_exp if tuple(p) not in excepted}
         if real - exp:
-            out["mism"].append({"clause": "hidden-sharing", "T": T, "input": v, "expected": sorted(exp), "actual": sorted(real)})
+            out["mism"].append({"clause": "hidden-sharing", "T": T, "input": v, "expected": sorted(map(str, exp)), "actual": sorted(map(str, real))})
         if exp - real:
-            out["mism"].append({"clause": "promised-sharing-missing", "T": T, "input": v, "expected": sorted(exp), "actual": sorted(real)})
+            out["mism"].append({"clause": "promised-sharing-missing", "T": T, "input": v, "expected": sorted(map(str, exp)), "actual": sorted(map(str, real))})
         # deserialization: no typed container shared with the input, input not mutated
         if '"no_copy"' not in json.dumps(T) and '"any"' not in json.dumps(T):
             d = copy.deepcopy(w)
